@@ -2,6 +2,10 @@
 from facts import Sym, call_name, calls_in, find, is_call_to, is_local, lit_of, path_is, peel, strip_generics, strip_sym, sym_arg, sym_is_call, sym_str, sym_through, sym_walk, walk, is_foreign_exp
 from props.common import arg_syms, callee_method_name, crate_stats, gates, in_cycle, need, nonforeign_calls, one_method, has_panic_path
 
+KEEP = [  # private helpers the rules name (kept as functions); every other non-exported, non-trait function is spliced into its callers
+    "AtomicBucketInstant::new", "HttpListeningExporter::check_tcp_allowed", "HttpListeningExporter::handle_http_request", "HttpListeningExporter::process_tcp_stream",
+    "HttpListeningExporter::serve_tcp", "Inner::render", "HttpListeningExporter::process_uds_stream", "HttpListeningExporter::serve_uds",
+]
 TITLE = "C18 the scrape endpoint serves the current rendering and enforces its allowlist."
 CONFIGS = ["test-profile", "prom-uds"]
 HL = "metrics_exporter_prometheus::exporter::http_listener::HttpListeningExporter"
@@ -154,9 +158,15 @@ def run(ctx):
                 ip_ok = "ip(" in sym_str(ca[1]) and "peer_addr" in sym_str(ca[1])
                 nets_ok = "allowed_addresses" in sym_str(ca[0]) or "next(" in sym_str(ca[0])
                 pc = PredFlow(cont[0].fn, lambda subj, v: None, lambda x: ("P", "N") if sym_is_call(x, "contains") and "ipnet" in str(strip_sym(x)[1]) else None)
-                trues = [(i, v) for i, v in rets if v[:3] == ("const", "bool", True) and not any(lab == "None" and "allowed_addresses" in repr(dd) for dd, lab in gates(b, i))]
                 if cont[0].fn is cta:
-                    any_ok = ip_ok and nets_ok and bool(trues) and all(pc.at(i) == "P" for i, v in trues) and any(v[:3] == ("const", "bool", False) and pf.at(i) != "N" for i, v in rets)
+                    # every value returned (other than "no allowlist -> true") is true only if a contains() said so
+                    vals = []
+                    for i, k, st in b.stmts():
+                        if st["k"] == "assign" and st["p"]["l"] == 0 and not st["p"].get("pr") and pc.at(i) != "B":
+                            if any(lab == "None" and "allowed_addresses" in repr(dd) for dd, lab in gates(b, i)):
+                                continue
+                            vals.append(pc._bool_rv(st["rv"], dict(pc._env_at(i, k)), pc.at(i)))
+                    any_ok = ip_ok and nets_ok and bool(vals) and all(v[0] in ("P", "B") for v in vals) and any(v[0] == "P" for v in vals) and any(v[1] != "B" for v in vals)
                 else:
                     names = [callee_method_name(c) for c in nonforeign_calls(cta)]
                     any_ok = ip_ok and "any" in names and "all" not in names
